@@ -1081,8 +1081,13 @@ func checkField(f ast.Expr, st *types.Struct) (*types.Var, error) {
 	if !ok {
 		return nil, fmt.Errorf("%v must be a string with the field name", f)
 	}
+	name, err := strconv.Unquote(b.Value)
+	if err != nil || b.Kind != token.STRING {
+		return nil, fmt.Errorf("%v must be a string with the field name", b.Value)
+	}
 	for i := 0; i < st.NumFields(); i++ {
-		if strings.EqualFold(strconv.Quote(st.Field(i).Name()), b.Value) {
+		// Field names are matched exactly: Go identifiers are case-sensitive.
+		if st.Field(i).Name() == name {
 			if isPrevented(st.Tag(i)) {
 				return nil, fmt.Errorf("%s is prevented from injecting by wire", b.Value)
 			}
